@@ -12,7 +12,7 @@ Results go to seeded/<name>/meta.json under "verification".
 import json, os, shutil, subprocess, sys, time
 from concurrent.futures import ThreadPoolExecutor
 V = os.path.dirname(os.path.dirname(os.path.abspath(__file__)))
-SCR = "/tmp/seedall"
+SCR = "/tmp/seedall-%d" % os.getpid()   # private to this invocation: concurrent runs must not remove each other's trees
 
 
 def sh(cmd, **kw):
